@@ -2,6 +2,7 @@ package c15
 
 import (
 	"fmt"
+	"strings"
 	"sync"
 	"testing"
 
@@ -143,7 +144,7 @@ func TestBusHistories(t *testing.T) {
 		b := newBench(pl.Handlers, pl.Scripts)
 		defer b.w.Teardown()
 		if pl.Peer {
-			b.addPeer(b.w.AddPeer("ski1", "d:_r:peer1", nil))
+			b.addPeer(b.w.AddPeer("ski1", "d:_r:peer1", peerTree(1)))
 		}
 		b.w.Sync()
 		b.rebase()
@@ -323,15 +324,4 @@ func (f *fakeT) Fatalf(format string, args ...any) {
 }
 func (f *fakeT) Logf(string, ...any) {}
 
-func containsSig(msg, sig string) bool {
-	return len(msg) > 0 && len(sig) > 0 && (len(msg) >= len(sig)) && (indexOf(msg, "sig="+sig+" ") >= 0)
-}
-
-func indexOf(s, sub string) int {
-	for i := 0; i+len(sub) <= len(s); i++ {
-		if s[i:i+len(sub)] == sub {
-			return i
-		}
-	}
-	return -1
-}
+func containsSig(msg, sig string) bool { return strings.Contains(msg, "sig="+sig+" ") }
